@@ -9,4 +9,5 @@ INVARIANT SameAsList
 INVARIANT CommitIndexWasSet
 INVARIANT KillSafeModuloKF2
 INVARIANT NoException
+INVARIANT MetaOldOrNew
 CHECK_DEADLOCK FALSE
